@@ -29,16 +29,22 @@
                            ([meta_guess_b], a boolean computed by running the writer model).  It holds
                            unconditionally when no UTF-16/32 family encoding is in play (C01_guesses_ok_aligned);
                            it is a real condition otherwise (props/C01.v, C01_utf16_misaligned).
-   * [metas_encoded s cs]  at every write_meta of cs an encoding is in force: the call's encoding argument, or else
-                           the innermost open container's, is truthy ([meta_enc_b], per call).  ADDED with the fix of
-                           write_meta (`if not (encoding or self._cur_encoding): content = content.encode('ascii')`):
-                           [enc_ok] allows None everywhere, and in a DiffXWriter(encoding=None) a write_meta without
-                           encoding used to raise TypeError (rejected) and is now ACCEPTED; the JSON goes out as bytes,
-                           the reader yields bytes and asks json.loads about bytes, which [oracle_ok] (it speaks about
-                           the JSON text) and [call_prepared] / [call_nlines] (the text path) do not describe.  Without
-                           the hypothesis the statements below are false: C01_round_trip_unencoded_refuted.  It holds
-                           for every program of a writer constructed with an encoding (pydiffx's default is utf-8):
-                           C01_metas_encoded_init, C01_round_trip_encoded.
+   * [metas_oracle_ok orc s cs]  ADDED with the fix of write_meta (`if not (encoding or self._cur_encoding): content =
+                           content.encode('ascii')`).  [enc_ok] allows None everywhere, and in a DiffXWriter(encoding=
+                           None) a write_meta without encoding used to raise TypeError (rejected) and is now ACCEPTED:
+                           the pure-ASCII JSON goes out as bytes under a header without encoding, the reader yields
+                           bytes and asks json.loads about BYTES.  [meta_enc_b s c]: at the write_meta c made in state
+                           s an encoding IS in force (the call's encoding argument, or else the innermost open
+                           container's, is truthy) - the case that existed before the fix.  [metas_oracle_ok]: at
+                           every write_meta of cs an encoding is in force, OR the oracle answers for the bytes,
+                           loads (dumps j ++ b"\n") = j ([meta_oracle_at], [meta_bytes_oracle]).  Without it the
+                           statements below are false (C01_round_trip_unencoded_refuted: [oracle_ok] speaks about the
+                           JSON text only); with it the new path is covered (C01_round_trip_unencoded_ex).
+                           [metas_encoded s cs] (an encoding in force at every write_meta) implies it for every
+                           oracle (C01_metas_oracle_of_encoded) and holds for every program of a writer constructed
+                           with an encoding, pydiffx's default being utf-8 (C01_metas_encoded_init,
+                           C01_round_trip_encoded).  [call_prepared] / [call_nlines] follow the writer: text path
+                           under [meta_enc_b], bytes path otherwise (C01_call_prepared).
    * size                  the whole output is at most sys.maxsize bytes (the reader reads min(length, sys.maxsize);
                            it also keeps every length / indent below CPython's 4300-digit int limit).
    * [expected_record s line c body le]   the record the reader must yield for call c accepted in writer state s:
@@ -73,7 +79,7 @@ Theorem C01_round_trip : forall (enc0 ver : wv) (s0 : wstate) (cs : list call) (
   enc_ok enc0 ->
   Forall call_good cs ->
   accepted s0 cs ->
-  metas_encoded s0 cs ->                          (* an encoding is in force at every write_meta (see above) *)
+  metas_oracle_ok orc s0 cs ->                    (* write_meta with no encoding in force: the oracle answers for bytes *)
   guesses_ok s0 cs ->
   oracle_ok orc cs ->
   0 < chunk ->
@@ -86,7 +92,7 @@ Print Assumptions C01_round_trip.
    utf-8 or utf-8-sig *)
 Theorem C01_round_trip_aligned : forall (enc0 ver : wv) (s0 : wstate) (cs : list call) (orc : oracle) (chunk : nat),
   writer_init enc0 ver = (s0, Ok tt) -> enc_aligned enc0 ->
-  Forall call_good cs -> Forall (fun c => enc_aligned (call_enc c)) cs -> accepted s0 cs -> metas_encoded s0 cs ->
+  Forall call_good cs -> Forall (fun c => enc_aligned (call_enc c)) cs -> accepted s0 cs -> metas_oracle_ok orc s0 cs ->
   oracle_ok orc cs ->
   0 < chunk -> (Z.of_nat (length (w_out (snd (run_calls s0 cs)))) <= sys_maxsize)%Z ->
   read_all orc chunk (w_out (snd (run_calls s0 cs))) = (main_record enc0 ver :: expected_records s0 1 cs, TEnd).
@@ -109,6 +115,22 @@ Theorem C01_metas_encoded_def : forall s c cs,
     end.
 Proof. intros. split; [reflexivity|]. split; reflexivity. Qed.
 
+Theorem C01_metas_oracle_ok_def : forall orc s c cs,
+  (metas_oracle_ok orc s [] <-> True) /\
+  (metas_oracle_ok orc s (c :: cs) <-> meta_oracle_at orc s c /\ metas_oracle_ok orc (fst (do_call c s)) cs) /\
+  (meta_oracle_at orc s c <-> meta_enc_b s c = true \/ meta_bytes_oracle orc c) /\
+  meta_bytes_oracle orc c =
+    match c with
+    | WriteMeta (WDict j) _ _ =>
+        forall d, json_dump j = Ok d -> assoc_get beq (oracle_key_bytes (d ++ [x0a])) orc = Some (LoadsOk j)
+    | _ => True
+    end.
+Proof. intros. split; [reflexivity|]. split; [reflexivity|]. split; reflexivity. Qed.
+
+Theorem C01_metas_oracle_of_encoded : forall orc cs s, metas_encoded s cs -> metas_oracle_ok orc s cs.
+Proof. exact RoundTrip.metas_oracle_of_encoded. Qed.
+Print Assumptions C01_metas_oracle_of_encoded.
+
 (* the whole-sequence round trip for a writer constructed with an encoding *)
 Theorem C01_round_trip_encoded : forall (enc0 ver : wv) (s0 : wstate) (cs : list call) (orc : oracle) (chunk : nat),
   writer_init enc0 ver = (s0, Ok tt) -> enc_ok enc0 -> wv_truthy enc0 = true ->
@@ -118,17 +140,32 @@ Theorem C01_round_trip_encoded : forall (enc0 ver : wv) (s0 : wstate) (cs : list
 Proof. exact RoundTripCor.C01_round_trip_encoded. Qed.
 Print Assumptions C01_round_trip_encoded.
 
-(* without [metas_encoded] C01_round_trip is false of the fixed writer: DiffXWriter(encoding=None);
+(* without [metas_oracle_ok] C01_round_trip is false of the fixed writer: DiffXWriter(encoding=None);
    write_meta({'k': 1}) with an oracle that answers for the JSON text only *)
 Theorem C01_round_trip_unencoded_refuted :
   exists enc0 ver s0 cs orc chunk,
     writer_init enc0 ver = (s0, Ok tt) /\ enc_ok enc0 /\ Forall call_good cs /\ accepted s0 cs /\
     guesses_ok s0 cs /\ oracle_ok orc cs /\ 0 < chunk /\
     (Z.of_nat (length (w_out (snd (run_calls s0 cs)))) <= sys_maxsize)%Z /\
-    ~ metas_encoded s0 cs /\
+    ~ metas_oracle_ok orc s0 cs /\
     read_all orc chunk (w_out (snd (run_calls s0 cs))) <> (main_record enc0 ver :: expected_records s0 1 cs, TEnd).
 Proof. exact RoundTripCor.C01_round_trip_unencoded_refuted. Qed.
 Print Assumptions C01_round_trip_unencoded_refuted.
+
+(* ... and with an oracle that answers for the bytes the same program (no encoding anywhere) round-trips: the
+   hypotheses of C01_round_trip hold, these are the bytes, and the reader returns the dict *)
+Theorem C01_round_trip_unencoded_ex :
+  exists enc0 ver s0 cs orc,
+    writer_init enc0 ver = (s0, Ok tt) /\ enc_ok enc0 /\ Forall call_good cs /\ accepted s0 cs /\
+    ~ metas_encoded s0 cs /\ metas_oracle_ok orc s0 cs /\ guesses_ok s0 cs /\ oracle_ok orc cs /\
+    (Z.of_nat (length (w_out (snd (run_calls s0 cs)))) <= sys_maxsize)%Z /\
+    w_out (snd (run_calls s0 cs)) =
+      B "#diffx: version=1.0" ++ [x0a] ++ B "#.meta: format=json, length=15" ++ [x0a] ++
+      B "{" ++ [x0a] ++ B "    ""k"": 1" ++ [x0a] ++ B "}" ++ [x0a] /\
+    map r_payload (fst (read_all orc 96 (w_out (snd (run_calls s0 cs))))) = [PNone; PMeta (JObj [(ascii_text (B "k"), JInt 1)])] /\
+    read_all orc 96 (w_out (snd (run_calls s0 cs))) = (main_record enc0 ver :: expected_records s0 1 cs, TEnd).
+Proof. exact RoundTripCor.C01_round_trip_unencoded_ex. Qed.
+Print Assumptions C01_round_trip_unencoded_ex.
 
 Theorem C01_guesses_ok_aligned : forall cs s, w_stack s <> [] -> Forall enc_aligned (w_stack s) ->
   Forall (fun c => enc_aligned (call_enc c)) cs -> guesses_ok s cs.
@@ -139,7 +176,7 @@ Print Assumptions C01_guesses_ok_aligned.
    records of the accepted ones ([ok_calls s0 cs]: the calls of cs that returned normally, in order) *)
 Theorem C01_round_trip_mixed : forall (enc0 ver : wv) (s0 : wstate) (cs : list call) (orc : oracle) (chunk : nat),
   writer_init enc0 ver = (s0, Ok tt) -> enc_ok enc0 ->
-  Forall call_good cs -> metas_encoded s0 (ok_calls s0 cs) -> guesses_ok s0 (ok_calls s0 cs) -> oracle_ok orc cs ->
+  Forall call_good cs -> metas_oracle_ok orc s0 (ok_calls s0 cs) -> guesses_ok s0 (ok_calls s0 cs) -> oracle_ok orc cs ->
   0 < chunk -> (Z.of_nat (length (w_out (snd (run_calls s0 cs)))) <= sys_maxsize)%Z ->
   read_all orc chunk (w_out (snd (run_calls s0 cs)))
   = (main_record enc0 ver :: expected_records s0 1 (ok_calls s0 cs), TEnd).
@@ -164,7 +201,7 @@ Proof. exact RoundTripSim.sim_init. Qed.
 Print Assumptions C01_sim_init.
 
 Theorem C01_sim_step : forall orc chunk s s' st valid encs prev c,
-  Sim s st valid encs prev -> call_good c -> meta_enc_b s c = true -> meta_guess_b s c = true -> oracle_ok_call orc c ->
+  Sim s st valid encs prev -> call_good c -> meta_oracle_at orc s c -> meta_guess_b s c = true -> oracle_ok_call orc c ->
   do_call c s = (s', Ok tt) -> 0 < chunk ->
   (Z.of_nat (length (w_out s')) <= sys_maxsize)%Z ->
   exists new, w_out s' = w_out s ++ new /\
@@ -178,8 +215,9 @@ Theorem C01_sim_step : forall orc chunk s s' st valid encs prev c,
 Proof. exact RoundTrip.sim_step. Qed.
 Print Assumptions C01_sim_step.
 
-(* what [call_prepared] is: the (body, line_endings) pair _prepare_content returned for the call (for write_meta:
-   under [meta_enc_b], i.e. when the JSON text goes through the text path) *)
+(* what [call_prepared] is: the (body, line_endings) pair _prepare_content returned for the call; write_meta hands
+   it the JSON text when an encoding is in force, the JSON bytes otherwise (CHANGED with the fix of write_meta:
+   it was the text in both cases) *)
 Theorem C01_call_prepared : forall s c,
   call_prepared s c =
   let get (r : res (bytes * wv)) := match r with Ok p => p | Err _ => ([], WNone) end in
@@ -187,7 +225,9 @@ Theorem C01_call_prepared : forall s c,
   | WritePreamble (WStr t) enc ind le _ => get (prepare_content s (CText t) (preamble_indent ind) le enc true)
   | WriteMeta (WDict j) enc _ =>
       match json_dump j with
-      | Ok d => get (prepare_content s (CText (ascii_text d)) WNone WNone enc true)
+      | Ok d => get (prepare_content s
+                         (if wv_truthy (if negb (wv_truthy enc) && true then hd WNone (w_stack s) else enc)
+                          then CText (ascii_text d) else CBytes d) WNone WNone enc true)
       | Err _ => ([], WNone)
       end
   | WriteDiff (WBytes b) _ enc le => get (prepare_content s (CBytes b) WNone le enc false)
@@ -200,7 +240,7 @@ Proof. reflexivity. Qed.
 (* one record per accepted call plus the main header, in order; ids, levels and types as written; normal end *)
 Theorem C01_structure : forall enc0 ver s0 cs orc chunk,
   writer_init enc0 ver = (s0, Ok tt) -> enc_ok enc0 ->
-  Forall call_good cs -> accepted s0 cs -> metas_encoded s0 cs -> guesses_ok s0 cs -> oracle_ok orc cs ->
+  Forall call_good cs -> accepted s0 cs -> metas_oracle_ok orc s0 cs -> guesses_ok s0 cs -> oracle_ok orc cs ->
   0 < chunk -> (Z.of_nat (length (w_out (snd (run_calls s0 cs)))) <= sys_maxsize)%Z ->
   let rs := fst (read_all orc chunk (w_out (snd (run_calls s0 cs)))) in
   snd (read_all orc chunk (w_out (snd (run_calls s0 cs)))) = TEnd /\
@@ -214,7 +254,7 @@ Print Assumptions C01_structure.
    newline text if it did not end with it), metadata is the dict, diffs are the bytes (plus the encoded newline) *)
 Theorem C01_content : forall enc0 ver s0 cs orc chunk,
   writer_init enc0 ver = (s0, Ok tt) -> enc_ok enc0 ->
-  Forall call_good cs -> accepted s0 cs -> metas_encoded s0 cs -> guesses_ok s0 cs -> oracle_ok orc cs ->
+  Forall call_good cs -> accepted s0 cs -> metas_oracle_ok orc s0 cs -> guesses_ok s0 cs -> oracle_ok orc cs ->
   0 < chunk -> (Z.of_nat (length (w_out (snd (run_calls s0 cs)))) <= sys_maxsize)%Z ->
   exists r0 rs, fst (read_all orc chunk (w_out (snd (run_calls s0 cs)))) = r0 :: rs /\
                 r_payload r0 = PNone /\ Forall2 content_matches cs (map r_payload rs).
@@ -241,7 +281,7 @@ Proof. reflexivity. Qed.
    length / line_endings), ints as VInt, strings as VStr *)
 Theorem C01_options : forall enc0 ver s0 cs orc chunk,
   writer_init enc0 ver = (s0, Ok tt) -> enc_ok enc0 ->
-  Forall call_good cs -> accepted s0 cs -> metas_encoded s0 cs -> guesses_ok s0 cs -> oracle_ok orc cs ->
+  Forall call_good cs -> accepted s0 cs -> metas_oracle_ok orc s0 cs -> guesses_ok s0 cs -> oracle_ok orc cs ->
   0 < chunk -> (Z.of_nat (length (w_out (snd (run_calls s0 cs)))) <= sys_maxsize)%Z ->
   exists r0 rs, fst (read_all orc chunk (w_out (snd (run_calls s0 cs)))) = r0 :: rs /\
     r_opts r0 = expected_opts (main_opts enc0 ver) /\
@@ -297,7 +337,7 @@ Print Assumptions C01_header_exact.
         endings; pydiffx writes the same 857 bytes and reads the same 15 sections ---- *)
 Example C01_round_trip_ex :
   writer_init ex_enc0 ex_ver = (ex_s0, Ok tt) /\ enc_ok ex_enc0 /\
-  Forall call_good ex_cs /\ accepted ex_s0 ex_cs /\ metas_encoded ex_s0 ex_cs /\ guesses_ok ex_s0 ex_cs /\
+  Forall call_good ex_cs /\ accepted ex_s0 ex_cs /\ metas_oracle_ok ex_orc ex_s0 ex_cs /\ guesses_ok ex_s0 ex_cs /\
   oracle_ok ex_orc ex_cs /\
   (Z.of_nat (length (w_out (snd (run_calls ex_s0 ex_cs)))) <= sys_maxsize)%Z /\
   length (w_out (snd (run_calls ex_s0 ex_cs))) = 857 /\
